@@ -152,6 +152,24 @@ Definition img_delta_opt (d : option delta) : json := match d with Some x => img
 
 Record jws := { j_headers : obj; j_payload : string; j_signature : string; j_parts : string * string * string }.
 
+(* The protected header is decoded with go-jose's JSON package, which refuses an object that
+   names a member twice (exact spelling), at any depth; encoding/json, used everywhere else,
+   keeps the last occurrence. *)
+Fixpoint names_distinct (l : list string) : bool :=
+  match l with
+  | [] => true
+  | x :: r => andb (negb (existsb (String.eqb x) r)) (names_distinct r)
+  end.
+
+Fixpoint dupfree (j : json) : bool :=
+  match j with
+  | JArr l => (fix go (l : list json) : bool := match l with [] => true | x :: r => andb (dupfree x) (go r) end) l
+  | JObj m => andb (names_distinct (map fst m))
+                   ((fix go (m : list (string * json)) : bool :=
+                       match m with [] => true | kv :: r => andb (dupfree (snd kv)) (go r) end) m)
+  | _ => true
+  end.
+
 Definition parse_jws (s : string) : option jws :=
   if is_prefix "{" s then None else
   match split_on "."%char "" s with
@@ -161,6 +179,7 @@ Definition parse_jws (s : string) : option jws :=
       | Some hb =>
           match parse_json hb with
           | Some (JObj h) =>
+              if negb (dupfree (JObj h)) then None else
               (* checkJWSHeaders: alg must be defined *)
               if negb (has "alg" h) then None else
               match b64_decode p1, b64_decode p2 with
